@@ -4,6 +4,9 @@
 pub mod build;
 pub mod custom;
 pub mod edit;
+pub mod from_bytes;
+pub mod fuzz;
+pub mod fuzzrt;
 pub mod gen;
 pub mod known;
 pub mod model;
